@@ -111,10 +111,12 @@ def replay_states(states, seed, judge_name, tier):
                     obs['normalize'] = observe_normalize(path, mode, txns)
                 except Exception as e:
                     obs['normalize'] = 'EXC:' + repr(e)
-                if vi == 0 and mode == 'first_match' and EC.csv_expressible(f):
+                if mode == 'first_match' and EC.csv_expressible(f) and not v.neg_amount:
                     cpath = os.path.join(tmpdir, 'm.csv')
+                    cv = EC.Variant(canonical=True)
+                    cv.a1 = v.a1 if vi else 0        # the pattern spelling varies, the transaction stays canonical-compatible
                     with open(cpath, 'w', newline='') as fh:
-                        fh.write(EC.csv_text(f, v))
+                        fh.write(EC.csv_text(f, cv))
                     try:
                         obs['legacy_csv'] = observe_normalize(cpath, mode, txns)
                     except Exception as e:
